@@ -269,14 +269,14 @@ SPEC = {
         full=["watch", "embed", "v", "video", "shorts", "channel", "user", "c", "@handle", VID, VID + "extra", "short", "UCabcdefghijklmnopqrstuv",
               "feed", "playlist", "results", "redirect", "about", "Name", ""],
         reduced=["watch", "embed", "shorts", "channel", "user", "c", VID, "Name", "@handle"],
-        queries=["", "v=" + VID, "v=bad", "v=" + VID + "&list=PL1", "list=PL1", "next=%2Fwatch%3Fv%3D" + VID, "next=%2Fwatch%3Fv%3Dx", "v=" + VID + "xyz",
+        queries=["", "v=" + VID, "v=bad", "v=" + VID + "&list=PL1", "list=PL1", "v=" + VID + "&list=PL%26x%3D1", "list=PL%2523a&v=" + VID, "v=" + VID + "&list=PL%2526", "next=%2Fwatch%3Fv%3D" + VID, "next=%2Fwatch%3Fv%3Dx", "v=" + VID + "xyz",
                  "q=http%3A%2F%2Fx.org", "feature=share&v=" + VID, "next%3D%252Fwatch%253Fv%253Dzz", "v=", "V=" + VID],
         fragments=["", "/watch?v=" + VID, "%2Fwatch%3Fv%3D" + VID, "!/x", "/watch?v=bad"],
         options=[{"fix_common_mistakes": True}, {"fix_common_mistakes": False}],
     ),
     "twitter": dict(
         hosts=["https://twitter.com", "twitter.com", "https://x.com", "http://mobile.twitter.com"],
-        full=["i", "lists", "status", "statuses", "home", "explore", "search", "hashtag", "messages", "@jack", "jack", "Jack", "123456", "web", "events", ""],
+        full=["i", "lists", "status", "statuses", "home", "explore", "search", "hashtag", "messages", "@jack", "jack", "Jack", "123456", "web", "events", "", "Home", "I", "Explore"],
         reduced=["i", "lists", "status", "jack", "123456", "home"],
         queries=["", "s=20", "lang=fr"],
         fragments=["", "!/jack", "!jack/status/1", "!", "!/i", "!/i/lists", "!/home"],
@@ -284,7 +284,8 @@ SPEC = {
     ),
     "instagram": dict(
         hosts=["https://www.instagram.com", "instagram.com", "http://m.instagram.com"],
-        full=["p", "reel", "reels", "videos", "tv", "explore", "accounts", "stories", "user.name", "BxKRx5CHn5i", "bad id!", "a b", "settings", "é", ""],
+        full=["p", "reel", "reels", "videos", "tv", "explore", "accounts", "stories", "user.name", "BxKRx5CHn5i", "bad id!", "a b", "settings", "é", "",
+              "Explore", "ACCOUNTS", "Reels", "Your_Activity", "User.Name"],
         reduced=["p", "reel", "reels", "videos", "user.name", "BxKRx5CHn5i", "bad id!"],
         queries=["", "hl=fr", "igshid=x"],
         fragments=[""],
